@@ -1,4 +1,5 @@
 import GixModel.Lemmas.C08Caches
+import GixModel.Lemmas.C08Vec
 /-
 C08 — Objects read from packs are exact, whatever caches are used.  PROPERTY THEOREMS ONLY.
 
@@ -35,6 +36,34 @@ theorem swap_buffers_correct (acc : List ChainItem) (kind : Kind) (baseData : By
     ∃ a b s last, applyChain acc (fitTo (biggestSize acc) baseData) (fitTo (biggestSize acc) []) true 0
         = some (a, b, s, last) ∧ assemble acc.length a b s last = v.2 ∧ v.1 = kind :=
   buffers_spec acc kind baseData v hne hrep
+
+/-! ### the same over the byte layout of the single output vector -/
+
+/-- `resolve_exact` for `decodeEntryVec`, the model that works — like the code — in ONE vector laid out as
+`[first buffer][second buffer][delta instructions]` (both `resize`s, the instructions inflated behind the
+cached base or at the front, the "rescue" copy behind the two buffers, the base entry inflated over the
+front, the split into the views, the loop, the copy-back, `truncate`): for ANY previous content of the
+caller's vector the answer is the specified object, the vector then holds exactly its bytes, the cache
+invariant is kept. -/
+theorem resolve_exact_vec (P : Pack) (M : CacheModel) (K : CacheContract M) (fuel : Nat) (c : M.σ) (off : Nat)
+    (out : Bytes) (v : Kind × Bytes) (hs : Spec.obj P fuel off = some v) (hc : K.Inv (IsObj P) c) :
+    ∃ d c', decodeEntryVec P M fuel c off out = .ok (d, c', d.data) ∧ (d.kind, d.data) = v ∧ K.Inv (IsObj P) c' :=
+  decodeEntryVec_exact P M K fuel c off out v hs hc
+
+/-- any request sequence with one cache and one output vector reused from request to request -/
+theorem requests_exact_vec (P : Pack) (M : CacheModel) (K : CacheContract M) (fuel : Nat) (reqs : List Nat)
+    (c : M.σ) (out : Bytes) (hc : K.Inv (IsObj P) c) (hdef : ∀ off ∈ reqs, ∃ v, Spec.obj P fuel off = some v) :
+    ∃ ds c' out', serveVec P M fuel c out reqs = .ok (ds, c', out') ∧ K.Inv (IsObj P) c' ∧
+      ds.map (fun d => some (d.kind, d.data)) = reqs.map (Spec.obj P fuel) :=
+  serveVec_exact P M K fuel reqs c out hc hdef
+
+/-- the layout on its own: after the walk — the vector holding the cached base, or anything at all when the
+base is a pack entry — the code's resizes and copies never panic and leave the base at the front and the
+deltas' data, oldest first, behind the two buffers -/
+theorem layout_correct (acc : List ChainItem) (base out : Bytes) (hL : base.length ≤ biggestSize acc) :
+    (∃ o, layout acc (some base.length) [] base = some o ∧ LayoutOk acc base o) ∧
+    (∃ o, layout acc none base out = some o ∧ LayoutOk acc base o) :=
+  ⟨layout_hit acc base hL, layout_entry acc base out hL⟩
 
 /-! ### every concrete cache satisfies the contract, for every capacity -/
 
@@ -130,6 +159,12 @@ example : ∀ off ∈ [30, 20, 30, 10, 20], ∃ v, Spec.obj examplePack 3 off = 
 example : (match serve examplePack staticModel 3 (StaticLRU.new 1 0) [30, 30, 20] with
     | .ok (ds, _) => ds.map (fun d => (d.data.length, d.numDeltas))
     | _ => []) = [(19, 2), (19, 0), (18, 1)] := by
+  decide +kernel
+
+-- the single-vector model on the same pack, the caller's vector full of junk, a two-slot static cache
+example : (match serveVec examplePack staticModel 3 (StaticLRU.new 2 0) [9, 9, 9, 9, 9, 9, 9, 9, 9, 9, 9, 9, 9, 9, 9, 9, 9, 9, 9, 9, 9, 9, 9, 9, 9, 9, 9, 9, 9, 9, 9, 9, 9, 9, 9, 9, 9, 9, 9, 9, 9, 9, 9, 9, 9, 9, 9, 9, 9, 9] [30, 30, 20, 10, 30] with
+    | .ok (ds, _, out) => (ds.map (fun d => (d.data.length, d.numDeltas)), out.length)
+    | _ => ([], 0)) = ([(19, 2), (19, 0), (18, 1), (11, 0), (19, 0)], 19) := by
   decide +kernel
 
 /-! ### the defects that were repaired -/
